@@ -14,4 +14,5 @@ MUTANTS = [
  {"id": "pattern-dewey-error-becomes-simple", "kind": "break",
   "edits": [(P, "let dewey = Some(Dewey::new(pattern)?);", "let dewey = Dewey::new(pattern).ok();")], "expect": ["D4-PATTERN-AGREES"]},
  {"id": "bound-version-from-whole-pattern", "kind": "break", "edits": [(D, "let version = DeweyVersion::new(pattern);\n        Ok(DeweyMatch {", "let version = DeweyVersion::new(pattern.trim_start_matches('='));\n        Ok(DeweyMatch {")], "expect": ["D1-BOUND"]},
+ {"id": "trivial-lower-bound-dropped", "kind": "break", "edits": [(D, "        let pkgname = pattern[0..deweyops[0].0].to_string();", "        if matches.len() == 2 && matches[0].version.version.is_empty() {\n            matches.remove(0);\n        }\n        let pkgname = pattern[0..deweyops[0].0].to_string();")], "expect": ["D1-BOUNDS-KEPT"]},
 ]
